@@ -396,18 +396,18 @@ Proof.
     destruct IH as (I1 & I2 & I3). splits; auto. lia.
 Qed.
 
-Lemma fu_from_list_spec mrg l w :
+Lemma fu_from_list_spec mrg h l w :
   winv (cnt []) None w ->
-  let '(u, w') := fu_from_list P mrg l w in
+  let '(u, w') := fu_from_list P mrg h l w in
   winv (cnt (blks (groups u))) None w' /\ fu_ok mrg u /\ total (groups u) = length l.
 Proof.
   intros Hw. unfold fu_from_list.
-  assert (H0 : let '(u0, w0) := (if mrg then (fu_empty, w) else fu_with_capacity (Nat.max (length l) (pMinCap P)) w) in
+  assert (H0 : let '(u0, w0) := (if mrg then (fu_empty, w) else fu_with_capacity (Nat.max h (pMinCap P)) w) in
                winv (cnt (blks (groups u0))) None w0 /\ fu_ok mrg u0 /\ total (groups u0) = 0).
   { destruct mrg.
     - splits; auto. apply fu_empty_ok.
     - apply fu_with_capacity_spec; auto. }
-  destruct (if mrg then (fu_empty, w) else fu_with_capacity (Nat.max (length l) (pMinCap P)) w) as [u0 w0].
+  destruct (if mrg then (fu_empty, w) else fu_with_capacity (Nat.max h (pMinCap P)) w) as [u0 w0].
   destruct H0 as (A & B & C).
   pose proof (@fu_push_fold_spec mrg l u0 w0 A B) as H.
   destruct (fold_left (fun uw c => fu_push P mrg (fst uw) c (snd uw)) l (u0, w0)) as [u' w'].
